@@ -17,11 +17,14 @@ NonDecreasing(s) == \A i \in 1..(Len(s)-1) : s[i] <= s[i+1]
 
 \* "zs"   zero point produced for a range: in the integer range, 0 when symmetric
 \* "rt"   quantize(dequantize(q)) = q for every code q of the (narrow) range
-\* "mono" codes of an ascending input are non-decreasing and inside the (narrow) range
+\* "mono" codes of an ascending input are non-decreasing and inside the (narrow) range; the first `below` inputs lie
+\*        below the representable range (down to -3e38) and the last `above` ones above it: they saturate
 \* "chan" changing the parameters of channel c changes only the codes of channel c
 Law == CASE Cur.kind = "zs"   -> Cur.zp \in Cur.lo..Cur.hi /\ (Cur.sym => Cur.zp = 0) /\ Cur.zpok
          [] Cur.kind = "rt"   -> Cur.back = Cur.codes /\ InRange(Cur.back, Cur.lo, Cur.hi)
-         [] Cur.kind = "mono" -> NonDecreasing(Cur.qs) /\ InRange(Cur.qs, Cur.lo, Cur.hi)
+         [] Cur.kind = "mono" -> /\ NonDecreasing(Cur.qs) /\ InRange(Cur.qs, Cur.lo, Cur.hi)
+                                 /\ \A i \in 1..Cur.below : Cur.qs[i] = Cur.lo
+                                 /\ \A i \in (Len(Cur.qs) - Cur.above + 1)..Len(Cur.qs) : Cur.qs[i] = Cur.hi
          [] Cur.kind = "chan" -> /\ Len(Cur.q1) = Len(Cur.q2)
                                  /\ \A i \in 1..Len(Cur.q1) : Cur.ch[i] # Cur.c => Cur.q1[i] = Cur.q2[i]
          [] OTHER -> FALSE
